@@ -24,7 +24,9 @@ from xml.sax.saxutils import quoteattr, escape
 
 
 def _num(v):
-    if isinstance(v, float) and v == int(v):
+    if isinstance(v, float) and (v != v or v in (float("inf"), float("-inf"))):
+        return repr(v)
+    if isinstance(v, float) and abs(v) < 1e15 and v == int(v):
         return str(int(v))
     return repr(v) if isinstance(v, float) else str(v)
 
